@@ -360,6 +360,13 @@ def c16(inp, rng, out):
                   keep = []
                   if mode == "warm":
                       bare = b"".join(pieces[case["lo"] - 1:case["hi"]]) if case["kind"] != "Unknown" else s.replace(b"ro.", b"", 1).replace(b"imm.", b"", 1)
+                      # first, caps of OTHER kinds that name the same stored object (same storage index): the directory
+                      # wrapping of a file cap / the backing file cap of a directory cap, each with its read and verify forms
+                      for sib in sibling_caps(bare):
+                          try:
+                              keep.append(nm.create_from_cap(sib, None))
+                          except Exception:
+                              pass
                       for a in ((bare, None), (None, bare)):
                           try:
                               keep.append(nm.create_from_cap(a[0], a[1]))
@@ -432,6 +439,35 @@ def c16(inp, rng, out):
                 check_unknown(mism, "C16:UnknownNode", node, case["un"], pcs, ex)
     g.close()
     out.update({"mismatches": mism.as_list(), "stats": stats, "samples": samples})
+
+
+def sibling_caps(capstr):
+    """cap strings of other kinds for the object `capstr` names (mutable families only)"""
+    wrap = {uri.WriteableSSKFileURI: uri.DirectoryURI, uri.ReadonlySSKFileURI: uri.ReadonlyDirectoryURI,
+            uri.SSKVerifierURI: uri.DirectoryURIVerifier, uri.WriteableMDMFFileURI: uri.MDMFDirectoryURI,
+            uri.ReadonlyMDMFFileURI: uri.ReadonlyMDMFDirectoryURI, uri.MDMFVerifierURI: uri.MDMFDirectoryURIVerifier}
+    out = []
+    try:
+        u = uri.from_string(capstr)
+    except Exception:
+        return out
+    base = None
+    if type(u) in wrap:
+        base = u
+    elif isinstance(u, uri._DirectoryBaseURI) and type(u._filenode_uri) in wrap:
+        base = u._filenode_uri
+    if base is None:
+        return out
+    forms = [base]
+    if hasattr(base, "get_readonly") and not base.is_readonly():
+        forms.append(base.get_readonly())
+    forms.append(base.get_verify_cap())
+    for f in forms:
+        for c in (f, wrap[type(f)](f)):
+            st = c.to_string()
+            if st != capstr and st not in out:
+                out.append(st)
+    return out
 
 
 def check_unknown(mism, base, node, exp, pieces, ex):
